@@ -1088,6 +1088,8 @@ int vorbis_encode_ctl(vorbis_info *vi,int number,void *arg){
           hi->bitrate_min=0;
           hi->bitrate_max=0;
         }else{
+          if(ai->bitrate_hard_window!=ai->bitrate_hard_window)
+            return(OV_EINVAL); /* NaN */
           hi->bitrate_min=ai->bitrate_hard_min;
           hi->bitrate_max=ai->bitrate_hard_max;
           hi->bitrate_reservoir=ai->bitrate_hard_window*
@@ -1137,16 +1139,17 @@ int vorbis_encode_ctl(vorbis_info *vi,int number,void *arg){
              ai->bitrate_limit_min_kbps>ai->bitrate_limit_max_kbps)
             return OV_EINVAL;
 
-          if(ai->bitrate_average_damping <= 0.)
+          /* written so that NaN fails them too */
+          if(!(ai->bitrate_average_damping > 0.))
             return OV_EINVAL;
 
           if(ai->bitrate_limit_reservoir_bits < 0)
             return OV_EINVAL;
 
-          if(ai->bitrate_limit_reservoir_bias < 0.)
+          if(!(ai->bitrate_limit_reservoir_bias >= 0.))
             return OV_EINVAL;
 
-          if(ai->bitrate_limit_reservoir_bias > 1.)
+          if(!(ai->bitrate_limit_reservoir_bias <= 1.))
             return OV_EINVAL;
 
           hi->managed=ai->management_active;
@@ -1169,6 +1172,7 @@ int vorbis_encode_ctl(vorbis_info *vi,int number,void *arg){
     case OV_ECTL_LOWPASS_SET:
       {
         double *farg=(double *)arg;
+        if(*farg!=*farg)return(OV_EINVAL); /* NaN would pass both clamps */
         hi->lowpass_kHz=*farg;
 
         if(hi->lowpass_kHz<2.)hi->lowpass_kHz=2.;
@@ -1185,6 +1189,7 @@ int vorbis_encode_ctl(vorbis_info *vi,int number,void *arg){
     case OV_ECTL_IBLOCK_SET:
       {
         double *farg=(double *)arg;
+        if(*farg!=*farg)return(OV_EINVAL); /* NaN would pass both clamps */
         hi->impulse_noisetune=*farg;
 
         if(hi->impulse_noisetune>0.)hi->impulse_noisetune=0.;
